@@ -80,7 +80,16 @@ x_, y_, z_ = z3.Reals('x_ y_ z_')
 Y_ = z3.Const('Y_', TT)
 ix_ = z3.Const('ix_', IDX)
 
-GROUPS = {}
+class _Groups(dict):
+    """Axiom groups by name; a name can be defined once (extension modules ttvc/mx_*.py add their own groups - a silent
+    override by a second module would change the theory under another unit's proofs)."""
+    def __setitem__(self, key, value):
+        if key in self:
+            raise KeyError(f'axiom group {key!r} is already defined')
+        super().__setitem__(key, value)
+
+
+GROUPS = _Groups()
 
 # ---- shapes of the matrix operations
 GROUPS['shape'] = [
